@@ -204,6 +204,14 @@ func main() {
 	// open known findings are not re-attempted in the quick tier (they are reported as
 	// KNOWN-FINDING); the thorough tier attempts them like everything else
 	known0 := loadKnown(*knownPath)
+	// open known findings are attempted once in the thorough tier (not at all in the quick tier)
+	// and never in the long sequential retry pass
+	openKnownName := map[string]bool{}
+	for _, k := range known0.Findings {
+		if k.Status == "open" && k.Obligation != "" {
+			openKnownName[k.Obligation] = true
+		}
+	}
 	if *tier == "quick" {
 		skip := map[string]bool{}
 		for _, k := range known0.Findings {
@@ -232,7 +240,7 @@ func main() {
 		for _, r := range runs {
 			for _, f := range r.encs {
 				for _, ob := range f.obls {
-					if ob.Result != nil && !ob.Cover && (ob.Result.Status == "timeout" || ob.Result.Status == "unknown") {
+					if ob.Result != nil && !ob.Cover && (ob.Result.Status == "timeout" || ob.Result.Status == "unknown") && !openKnownName[ob.Name] {
 						retry = append(retry, ob)
 						retryRun = append(retryRun, r)
 						retryEnc = append(retryEnc, f)
